@@ -261,7 +261,7 @@ func c11Run(ops []string, seed int) (lines []string, viols []Violation, info map
 				viol("C11/fresh-connection-broken", "the connection handed out after "+op+" does not carry data")
 			}
 			add("sess.transfer")
-		case "early-accept", "early-dial":
+		case "early-accept", "early-dial", "early-dial-expiring":
 			// asked for the next connection while this one is open: must wait
 			ch := make(chan PendingConn, 1)
 			if op == "early-accept" && st.PendingAccept != nil {
@@ -270,9 +270,16 @@ func c11Run(ops []string, seed int) (lines []string, viols []Violation, info map
 				go func() {
 					var c net.Conn
 					var err error
-					if op == "early-accept" {
+					switch op {
+					case "early-accept":
 						c, err = st.Srv.Accept()
-					} else {
+					case "early-dial-expiring":
+						// the caller's context runs out while the previous connection is still open:
+						// that must not produce a second connection next to it either
+						ctx, cancel := context.WithTimeout(st.Ctx, 300*time.Millisecond)
+						defer cancel()
+						c, err = st.Cli.Dial(ctx, "")
+					default:
 						c, err = st.Cli.Dial(st.Ctx, "")
 					}
 					ch <- PendingConn{c, err}
@@ -284,9 +291,12 @@ func c11Run(ops []string, seed int) (lines []string, viols []Violation, info map
 					viol("C11/second-connection-while-open", op+": a second connection was handed out while the first is open")
 				}
 				ch <- p
-			case <-time.After(1500 * time.Millisecond):
+			case <-time.After(map[bool]time.Duration{false: 1500 * time.Millisecond, true: 8 * time.Second}[op == "early-dial-expiring"]):
 			}
-			add("sess." + op + "-blocked")
+			if op == "early-dial-expiring" && !transfer() {
+				viol("C11/open-connection-disturbed", "a Dial whose context expired while the connection was open: the open connection no longer carries data")
+			}
+			add("sess." + strings.TrimSuffix(op, "-expiring") + "-blocked")
 			// end the current connection: the waiting call becomes one side of the next one
 			if !closeTimed(cli.Mailbox) {
 				viol("C11/close-does-not-return", "Close of the client's mailbox connection had not returned after 20 s")
@@ -370,6 +380,7 @@ func TestC11(t *testing.T) {
 		seqs = append(seqs, []string{a})
 	}
 	seqs = append(seqs, []string{"lost-act3", "transfer"})
+	seqs = append(seqs, []string{"early-dial-expiring"}, []string{"transfer", "early-dial-expiring", "transfer"})
 	rng := newRand(11)
 	for _, a := range alphabet[1:] {
 		for _, b := range alphabet[1:] {
